@@ -106,7 +106,7 @@ def _makebins_cli(case):
     if r.exit_code != 0:
         return {"mismatch": True, "impl": f"exit {r.exit_code}", "output": r.output[-300:]}
     rows = [l.split("\t") for l in r.output.strip().splitlines() if l]
-    got = [[int(c[1:]), int(s), int(e)] for c, s, e in rows]
+    got = [[gen.chromid(c), int(s), int(e)] for c, s, e in rows]
     m = drv().ask("C20.binnify", sizes=sizes, b=b)
     # parse_bins route as well
     from cooler.cli._util import parse_bins
